@@ -1,5 +1,5 @@
 (* Entry points of the executable model used by the correspondence check (extracted). *)
-From RP Require Import Base Stream Target Socks Http Frames Frag MiluSyntax MiluParser MiluDoc MiluEval Dispatch MiluSound MiluWf Reload Lb Callbacks RtLeaf MiluRoundtrip Idle.
+From RP Require Import Base Stream Target Socks Http Frames Frag MiluSyntax MiluParser MiluDoc MiluEval Dispatch MiluSound MiluWf Reload Lb Callbacks RtLeaf MiluRoundtrip Idle Config.
 From RP.Gen Require Gen_ladder.
 
 Definition HFUEL : nat := 4000.   (* header lines per HTTP head in generated cases are far fewer *)
@@ -64,3 +64,7 @@ Definition x_idle_check (period : N) (c_past : bool) (dc : N) (s_past : bool) (d
   (is_timeout period lc x_idle_now, is_timeout period ls x_idle_now, idle_close period lc ls x_idle_now).
 Definition x_tcp_period := tcp_period.
 Definition x_udp_period := udp_period.
+
+(* connector tables (C18) *)
+Definition x_table_ok := table_ok.
+Definition x_resolve (t : ctable) (n : N) (choices : list nat) := resolve (S (List.length t)) t n choices.
